@@ -204,7 +204,7 @@ def _call(t, val):
     args = [evaluate(a, val) for a in t[2]]
     kws = [(n, evaluate(v, val)) for n, v in t[3]]
     # method calls
-    if f[0] == "attr":
+    if f[0] == "attr" and not (f[1][0] == "name" and f[1][1] in ("math", "np", "numpy", "cmath")):
         recv = evaluate(f[1], val)
         m = f[2]
         if m in ("strip", "rstrip", "lstrip") and recv[0] in ("blank", "nulls", "text", "stripped", "empty", "c"):
@@ -233,7 +233,7 @@ def _call(t, val):
         fname = f[1]
     elif f[0] == "attr":
         pass
-    if f[0] == "attr" and f[1] == ("name", "math") and f[2] == "isnan":
+    if f[0] == "attr" and f[1] in (("name", "math"), ("name", "np"), ("name", "numpy")) and f[2] == "isnan":
         fname = "math.isnan"
     if fname in ("int", "float", "bool", "len", "str", "math.isnan", "isinstance", "abs"):
         a = args[0] if args else None
